@@ -174,7 +174,7 @@ theorem convKeysSubs_cons (k : TKeys) (r : List TKeys) (acc : List ((Sub × Code
   simp only [convKeysSubs, keysStep]
   cases convTable Gen.kEYFromString convKey k.map <;> rfl
 
-theorem alookup_filter_sub (acc : List ((Sub × Code) × Key)) (sub s : Sub) (c : Code) :
+theorem alookup_filter_sub {β : Type} (acc : List ((Sub × Code) × β)) (sub s : Sub) (c : Code) :
     alookup (s, c) (acc.filter (fun p => p.1.1 ≠ sub)) = if s = sub then none else alookup (s, c) acc := by
   induction acc with
   | nil => simp [alookup]
@@ -194,7 +194,7 @@ theorem alookup_filter_sub (acc : List ((Sub × Code) × Key)) (sub s : Sub) (c 
       · cases h3; simp [h1]
       · simp only [h3, if_false]; exact ih
 
-theorem alookup_map_sub (tmp : List (Nat × Key)) (sub s : Sub) (c : Code) :
+theorem alookup_map_sub {β : Type} (tmp : List (Nat × β)) (sub s : Sub) (c : Code) :
     alookup (s, c) (tmp.map (fun p => ((sub, p.1), p.2))) = if s = sub then alookup c tmp else none := by
   induction tmp with
   | nil => simp [alookup]
@@ -320,6 +320,117 @@ theorem C10_mapping_keys_sound (ks : List TKeys) (midi : List ((Sub × Code) × 
       obtain ⟨kk, v, hmem, h2, h3⟩ := C10_table_values Gen.kEYFromString convKey k.map tmp htmp (c, key) hm
       exact ⟨k, hk, rfl, (kk, v), hmem, h2, h3⟩
   · rw [i1 s c hs] at hl; simp [alookup] at hl
+
+/-! ### the analog tables of a mapping -/
+
+/-- replace everything recorded for sub-handler `sub` by the converted table -/
+def subStep {β : Type} (acc : List ((Sub × Code) × β)) (sub : Sub) (tmp : List (Nat × β)) : List ((Sub × Code) × β) :=
+  (acc.filter (fun p => p.1.1 ≠ sub)) ++ tmp.map (fun p => ((sub, p.1), p.2))
+
+theorem lookup_subStep {β : Type} (acc : List ((Sub × Code) × β)) (sub : Sub) (tmp : List (Nat × β)) (s : Sub) (c : Code) :
+    alookup (s, c) (subStep acc sub tmp) = if s = sub then alookup c tmp else alookup (s, c) acc := by
+  unfold subStep
+  rw [alookup_append, alookup_filter_sub, alookup_map_sub]
+  by_cases h1 : s = sub
+  · simp [h1]
+  · simp only [h1, if_false]
+    cases alookup (s, c) acc <;> rfl
+
+theorem convAnalogSubs_cons (a : TAnalogSub) (r : List TAnalogSub) (acc : AnalogAcc) :
+    convAnalogSubs (a :: r) acc =
+      match convTable Gen.aBSFromString convAnalog a.map with
+      | .ok tmp =>
+        (match convTable Gen.aBSFromString (fun (z : Rat) => (Outcome.ok z : Outcome Rat)) a.dz with
+         | .ok dzs => convAnalogSubs r
+             { analog := subStep acc.analog a.sub tmp, dz := subStep acc.dz a.sub dzs, defDz := ainsert a.sub a.defDz acc.defDz }
+         | .err => .err
+         | .panic => .panic)
+      | .err => .err
+      | .panic => .panic := by
+  simp only [convAnalogSubs, subStep]
+  cases convTable Gen.aBSFromString convAnalog a.map with
+  | ok tmp => simp only; cases convTable Gen.aBSFromString (fun (z : Rat) => (Outcome.ok z : Outcome Rat)) a.dz <;> rfl
+  | err => rfl
+  | panic => rfl
+
+/-- the analog tables of a mapping with pairwise distinct sub-handler names: each sub-handler's axis table, deadzone table
+    and default deadzone end up exactly as converted; nothing else is added -/
+theorem convAnalogSubs_spec : ∀ (as : List TAnalogSub) (acc res : AnalogAcc),
+    (as.map (·.sub)).Nodup → convAnalogSubs as acc = .ok res →
+      (∀ s c, s ∉ as.map (·.sub) → alookup (s, c) res.analog = alookup (s, c) acc.analog ∧
+        alookup (s, c) res.dz = alookup (s, c) acc.dz) ∧
+      (∀ s, s ∉ as.map (·.sub) → alookup s res.defDz = alookup s acc.defDz) ∧
+      (∀ a ∈ as, ∃ tmp dzs, convTable Gen.aBSFromString convAnalog a.map = .ok tmp ∧
+        convTable Gen.aBSFromString (fun (z : Rat) => (Outcome.ok z : Outcome Rat)) a.dz = .ok dzs ∧
+        (∀ c, alookup (a.sub, c) res.analog = alookup c tmp) ∧ (∀ c, alookup (a.sub, c) res.dz = alookup c dzs) ∧
+        alookup a.sub res.defDz = some a.defDz) := by
+  intro as
+  induction as with
+  | nil =>
+    intro acc res _ h
+    simp only [convAnalogSubs, Outcome.ok.injEq] at h; subst h
+    exact ⟨fun _ _ _ => ⟨rfl, rfl⟩, fun _ _ => rfl, by intro a ha; cases ha⟩
+  | cons a r ih =>
+    intro acc res hnd h
+    rw [convAnalogSubs_cons] at h
+    simp only [List.map_cons, List.nodup_cons] at hnd
+    split at h
+    · rename_i tmp htmp
+      split at h
+      · rename_i dzs hdzs
+        obtain ⟨i1, i2, i3⟩ := ih _ _ hnd.2 h
+        refine ⟨?_, ?_, ?_⟩
+        · intro s c hs
+          simp only [List.map_cons, List.mem_cons, not_or] at hs
+          obtain ⟨j1, j2⟩ := i1 s c hs.2
+          simp only at j1 j2
+          rw [j1, j2, lookup_subStep, lookup_subStep]
+          simp [hs.1]
+        · intro s hs
+          simp only [List.map_cons, List.mem_cons, not_or] at hs
+          rw [i2 s hs.2]
+          simp only
+          rw [alookup_ainsert_ne hs.1]
+        · intro a' ha'
+          rcases List.mem_cons.mp ha' with rfl | ha'
+          · refine ⟨tmp, dzs, htmp, hdzs, ?_, ?_, ?_⟩
+            · intro c
+              rw [(i1 a'.sub c hnd.1).1]; simp only
+              rw [lookup_subStep]; simp
+            · intro c
+              rw [(i1 a'.sub c hnd.1).2]; simp only
+              rw [lookup_subStep]; simp
+            · rw [i2 a'.sub hnd.1]; simp only
+              exact alookup_ainsert_self
+          · exact i3 a' ha'
+      · cases h
+      · cases h
+    · cases h
+    · cases h
+
+/-- **every axis line of the file is in the accepted mapping** (axis tables with pairwise distinct sub-handler names): an
+    axis named once in its table is bound under `(sub, code)` to the conversion of its own inline table; the deadzone
+    entries and the per-sub-handler default deadzone likewise -/
+theorem C10_mapping_axes_complete (as : List TAnalogSub) (res : AnalogAcc)
+    (hnd : (as.map (·.sub)).Nodup) (h : convAnalogSubs as {} = .ok res) (a : TAnalogSub) (ha : a ∈ as) :
+    (∀ e ∈ a.map, ∀ c, keyToEvCode e.1 Gen.aBSFromString = some c →
+      (∀ e' ∈ a.map, keyToEvCode e'.1 Gen.aBSFromString = some c → e' = e) →
+      ∃ x, convAnalog e.2 = .ok x ∧ alookup (a.sub, c) res.analog = some x) ∧
+    (∀ e ∈ a.dz, ∀ c, keyToEvCode e.1 Gen.aBSFromString = some c →
+      (∀ e' ∈ a.dz, keyToEvCode e'.1 Gen.aBSFromString = some c → e' = e) → alookup (a.sub, c) res.dz = some e.2) ∧
+    alookup a.sub res.defDz = some a.defDz := by
+  obtain ⟨-, -, i3⟩ := convAnalogSubs_spec as {} res hnd h
+  obtain ⟨tmp, dzs, htmp, hdzs, l1, l2, l3⟩ := i3 a ha
+  refine ⟨?_, ?_, l3⟩
+  · intro e he c hc hu
+    obtain ⟨-, -, t3⟩ := C10_table_complete Gen.aBSFromString convAnalog a.map tmp htmp
+    obtain ⟨x, hx, hl⟩ := t3 e he c hc hu
+    exact ⟨x, hx, by rw [l1 c]; exact hl⟩
+  · intro e he c hc hu
+    obtain ⟨-, -, t3⟩ := C10_table_complete Gen.aBSFromString (fun (z : Rat) => (Outcome.ok z : Outcome Rat)) a.dz dzs hdzs
+    obtain ⟨x, hx, hl⟩ := t3 e he c hc hu
+    simp only [Outcome.ok.injEq] at hx; subst hx
+    rw [l2 c]; exact hl
 
 /-- a table with a key name that is not known, or a value the entry conversion rejects, is rejected as a whole -/
 theorem C10_table_rejects {α β} (table : List (String × Nat)) (f : α → Outcome β) (hf : ∀ a, f a ≠ .panic)
